@@ -16,11 +16,14 @@ use serde_json::{json, Value};
 
 type Rd<'a> = EndianSlice<'a, RunTimeEndian>;
 
+#[path = "c04_corpus.rs"]
+mod corpus;
+
 pub fn info() -> PropInfo {
     PropInfo {
         id: "C04",
         level: "exploration",
-        rule: "Streams: `probe` = per sampled header (parameter space min_inst_len {1,2,4,255,U}, max_ops {1,2,3,4,255,U} (v>=4), line_base {-128,-5,-3,-1,0,1,127,U}, line_range {1,2,12,14,127,255,U}, opcode_base {1,2,10,13,14,40,255,U} with arbitrary standard_opcode_lengths for opcodes >= 13, default_is_stmt raw byte, cycling through all 64 encodings = versions 2-5 x Dwarf32/64 x address sizes 1/2/4/8 x both byte orders) and per register prefix (6 prefixes: initial state, all registers set, op_index non-zero after a row, address/line at the top, line 0 and extreme file/column, random program): all 256 opcode bytes as the probed instruction and, for opcode 0, all 256 extended sub-opcodes (with operands/payload), followed by two DW_LNE_end_sequence (the first exposes every register, the second the reset). `prog` = random multi-sequence programs of 1-200 instructions over the full instruction set with boundary operands, padded ULEB128 operands, extended instructions with trailing bytes inside their length, DW_LNE_define_file, unit placed at a non-zero offset and followed by bytes that must not be executed; 85% well-formed by model look-ahead, 15% with ill-formed steps (secondary). `hdr` = header/table focused cases (v2-4 lists, v5 entry formats with 1-6 content types in any order, standard and non-standard forms, unknown content types, strings in .debug_line_str/.debug_str resolved through Dwarf::attr_line_string). For every case: header fields, include_directories, file_names (before and after define_file), file()/directory() lookups, rows of rows(), LineSequence{start,end} of sequences(), rows of resume_from() for every sequence against both the model and the straight run. `inv.bytes`/`inv.mut` = valid header + random instruction bytes, and structure-agnostic / field-map mutations of valid units: only the invariant (addresses never decrease within a sequence, never exceed the address size; LineSequence start <= end) is judged, on rows(), after errors, and on every resumed sequence. `regress` = witnesses of fixed defects. A case is non-trivial when the model emits at least one row (probe/prog), the header has at least one table entry (hdr) or the header parses and at least one instruction byte follows (inv); distinct by digest of the section bytes.",
+        rule: "Streams: `probe` = per sampled header (parameter space min_inst_len {1,2,4,255,U}, max_ops {1,2,3,4,255,U} (v>=4), line_base {-128,-5,-3,-1,0,1,127,U}, line_range {1,2,12,14,127,255,U}, opcode_base {1,2,10,13,14,40,255,U} with arbitrary standard_opcode_lengths for opcodes >= 13, default_is_stmt raw byte, cycling through all 64 encodings = versions 2-5 x Dwarf32/64 x address sizes 1/2/4/8 x both byte orders) and per register prefix (6 prefixes: initial state, all registers set, op_index non-zero after a row, address/line at the top, line 0 and extreme file/column, random program): all 256 opcode bytes as the probed instruction and, for opcode 0, all 256 extended sub-opcodes (with operands/payload), followed by two DW_LNE_end_sequence (the first exposes every register, the second the reset). `prog` = random multi-sequence programs of 1-200 instructions over the full instruction set with boundary operands, padded ULEB128 operands, extended instructions with trailing bytes inside their length, DW_LNE_define_file, unit placed at a non-zero offset and followed by bytes that must not be executed; 85% well-formed by model look-ahead, 15% with ill-formed steps (secondary). `hdr` = header/table focused cases (v2-4 lists, v5 entry formats with 1-6 content types in any order, standard and non-standard forms, unknown content types, strings in .debug_line_str/.debug_str resolved through Dwarf::attr_line_string). For every case: header fields, include_directories, file_names (before and after define_file), file()/directory() lookups, rows of rows(), LineSequence{start,end} of sequences(), rows of resume_from() for every sequence against both the model and the straight run. `inv.bytes`/`inv.mut` = valid header + random instruction bytes, and structure-agnostic / field-map mutations of valid units: only the invariant (addresses never decrease within a sequence, never exceed the address size; LineSequence start <= end) is judged, on rows(), after errors, and on every resumed sequence. `regress` = witnesses of fixed defects. A case is non-trivial when the model emits at least one row (probe/prog), the header has at least one table entry (hdr) or the header parses and at least one instruction byte follows (inv); distinct by digest of the section bytes. `corpus` (external-tool oracle; mon/corpus.rs) = small C (two translation units + a header in a sub-directory) and C++ (templates, inlining, virtual calls, destructors, throw/catch) programs compiled and linked at check time with gcc 12 / clang 14: quick tier 4 configurations (g++ -gdwarf-5 -O2; clang -gdwarf-5 -O2 -fno-asynchronous-unwind-tables; gcc -m32 -gdwarf-3 -O2 static without libc; clang++ -gdwarf-4 -O0), thorough tier 58 ({gcc,clang} x -gdwarf-{2,3,4,5} x {-O0,-O2} x {C,C++}, -gdwarf64 with gcc-written line tables, -fdebug-types-section, .debug_frame builds, 32-bit builds, --gc-sections, frame pointers, -Os/-O3); one case per configuration, sharded by index; executables and tool dumps are cached under .work/corpus by a hash of compiler version, flags and sources. For C04 every line program of the executable (walked sequentially through .debug_line) is compared with `llvm-dwarfdump --debug-line`: all header parameters, include_directories, file_names (name, directory index, mtime, length, MD5, source), every row (address, line, column, file index, isa, discriminator, is_stmt, basic_block, end_sequence, prologue_end, epilogue_begin), the file name and directory of every row through LineRow::file / FileEntry::directory, the (start, end) pairs of sequences() and the rows of resume_from() for every sequence. A corpus case is non-trivial when llvm printed at least one table; distinct by digest of .debug_line.",
         assumptions: &[
             "well-formed = header fields valid, every instruction decodes inside the program, no address arithmetic beyond the address size or u64, no DW_LNE_set_address below the current address of its sequence or >= 2^(8*size)-2, line register stays within 0..2^64; behaviour outside that domain (saturating line, AddressOverflow, tombstone suppression) is predicted from the pinned tree and compared as secondary observations only",
             "standard opcodes 1..12 keep their standard operand counts in standard_opcode_lengths and their DWARF 3+ meaning in every version (DESIGN A.4)",
@@ -29,6 +32,9 @@ pub fn info() -> PropInfo {
             "default_is_stmt: any non-zero byte means true",
             "ULEB128 operands are at most 10 bytes long (padded but not over-long)",
             "rows after an Err from next_row are included in the invariant clause (the iterator keeps going after AddressOverflow)",
+            "corpus: llvm-dwarfdump 14 is the oracle; tool/compiler failures and unparsable dumps are inconclusive, never violations",
+            "corpus normalisations (presentation only): strings are compared after resolving gimli's AttributeValue through Dwarf::attr_line_string; llvm prints address_size/seg_select_size only for version 5 and max_ops_per_inst only for version >= 4, so these are compared only then (seg_select_size never: gimli has no accessor); default_is_stmt is compared as 0/1; a missing mtime/length in a v5 table is 0; LeftEdge column = 0, line None = 0; pre-v5 rows with file dir_index 0 (compilation directory, not in the table) skip the directory comparison; llvm does not print op_index (max_ops is 1 on x86)",
+            "corpus: LineSequence.start is not compared for a table that contains an end_sequence without a preceding row (none observed)",
         ],
         exhaustive_subspaces: &[
             "all 256 opcode bytes x all 6 register prefixes per sampled header",
@@ -41,6 +47,9 @@ pub fn info() -> PropInfo {
             "ins.set_discriminator", "ins.unknown_ext", "strict.rows", "strict.sequences", "strict.resume", "strict.header", "strict.tables", "version.2", "version.3", "version.4", "version.5",
             "max_ops.gt1", "op_index.nonzero", "opcode_base.lt10", "opcode_base.gt13", "v5.form.line_strp", "v5.form.strp", "v5.form.string", "v5.form.data16", "v5.ct.unknown", "v5.ct.md5", "v5.ct.source",
             "secondary.agree", "inv.rows", "inv.parsed", "inv.error_seen", "inv.sequences", "regress.tombstone",
+            "corpus.object", "corpus.cc.gcc", "corpus.cc.clang", "corpus.lang.c", "corpus.lang.cpp", "corpus.line.tables", "corpus.line.rows", "corpus.line.file_entries", "corpus.line.dir_entries",
+            "corpus.line.sequences", "corpus.line.version.3", "corpus.line.version.4", "corpus.line.version.5", "corpus.line.md5", "corpus.line.addr4", "corpus.line.end_sequence", "corpus.line.prologue_end",
+            "corpus.line.discriminator", "corpus.line.not_stmt", "corpus.line.file_switch",
         ],
         run,
     }
@@ -1042,6 +1051,7 @@ fn regress(ctx: &mut Ctx) {
 }
 
 pub fn run(ctx: &mut Ctx) {
+    corpus::run(ctx);
     regress(ctx);
     probe(ctx);
     progs(ctx);
